@@ -191,6 +191,13 @@ def var_of(fn, n):
         lv = fn.locals[n['var']]
         if lv['type'].replace(' &', '') in INT_TYPES and not lv.get('ref'):
             return ('v', n['var'])
+        # an integer reference PARAMETER is a variable of its own when it is the only integer reference parameter (it can
+        # then alias no other name the function uses: fields are reached through `this`, locals are not visible to the caller)
+        if lv['type'].replace(' &', '') in INT_TYPES and lv.get('ref') and n['var'] in fn.params:
+            refs = [v for v in fn.params if fn.locals[v].get('ref') and fn.locals[v]['type'].replace(' &', '') in INT_TYPES
+                    and not fn.locals[v]['type'].startswith('const ')]
+            if len(refs) <= 1:
+                return ('v', n['var'])
         return None
     if n['k'] == 'MemberExpr' and n.get('mk') == 'field':
         f = fn.field_name(n)
@@ -199,12 +206,19 @@ def var_of(fn, n):
     return None
 
 
+EXTENT_VALUE = None     # hook: (fn, call node of rows()/cols()/size()) -> (var or 'Z', c) | None
+
+
 def linear(fn, n):
     """(var or 'Z', c) if the expression is  var + c  /  c ; else None."""
     n = fn.strip(n)
     if n is None:
         return None
     k = n['k']
+    if k == 'CXXMemberCallExpr' and EXTENT_VALUE is not None and n.get('callee') in ('rows', 'cols', 'size'):
+        r = EXTENT_VALUE(fn, n)
+        if r is not None:
+            return r
     if k == 'IntegerLiteral':
         return ('Z', int(n['val']))
     if k == 'CXXBoolLiteralExpr':
@@ -240,12 +254,64 @@ def linear(fn, n):
     return None
 
 
+def const_local_stable(fn, varid):
+    """A const local may be replaced by its initialiser only where the initialiser's operands still have the value they had at
+    the declaration: True iff no element inside the local's scope (the enclosing compound statement) may write an operand."""
+    cache = getattr(fn, '_cl_stable', None)
+    if cache is None:
+        cache = fn._cl_stable = {}
+    if varid in cache:
+        return cache[varid]
+    res = False
+    decl = None
+    init = None
+    for x in fn.walk():
+        if x['k'] == 'DeclStmt':
+            for dd in x.get('decls', []):
+                if dd.get('var') == varid and 'init' in dd:
+                    decl, init = x, dd['init']
+    if decl is not None:
+        ops = set()
+        for y in fn.walk(init):
+            v = var_of(fn, y) if y['k'] in ('DeclRefExpr', 'MemberExpr') else None
+            if v is not None:
+                ops.add(v)
+        scope = None
+        for a in fn.ancestors(decl):
+            if a['k'] in ('CompoundStmt', 'ForStmt', 'WhileStmt', 'DoStmt', 'IfStmt'):
+                scope = a
+                break
+        res = True
+        if scope is None:
+            res = False
+        else:
+            cf = const_fields(fn)
+            for y in fn.walk(scope['id']):
+                if y['id'] == decl['id']:
+                    continue
+                try:
+                    kv = killed_vars(fn, y)
+                except Exception:
+                    kv = set()
+                for k_ in kv:
+                    if isinstance(k_, tuple) and k_[0] == 'fields':
+                        for o in ops:
+                            if o[0] == 'f' and o[1] not in cf and (k_[1] is None or o[1] in k_[1]):
+                                res = False
+                    elif k_ in ops:
+                        res = False
+                if not res:
+                    break
+    cache[varid] = res
+    return res
+
+
 def _diff_definition(fn, v):
     """(p, q, c) if v is a const local initialised with  p - q + c  (p, q integer variables), else None."""
     if not (isinstance(v, tuple) and v[0] == 'v'):
         return None
     lv = fn.locals[v[1]]
-    if not lv.get('const') or lv['kind'] != 'var':
+    if not lv.get('const') or lv['kind'] != 'var' or not const_local_stable(fn, v[1]):
         return None
     cache = getattr(fn, '_diffdefs', None)
     if cache is None:
@@ -355,6 +421,16 @@ def assume(fn, d, cond, truth):
         return d
     # a bare integer / bool variable used as a condition
     v = var_of(fn, n)
+    if v is not None and v[0] == 'v' and fn.locals[v[1]].get('const') and fn.locals[v[1]]['type'] in ('const bool', 'bool') and const_local_stable(fn, v[1]):
+        # a const bool local IS its initialiser (same convention as for const integer locals in ranges.linform: the
+        # operands are loop counters that advance only in the loop step, after every use)
+        for x in fn.walk():
+            if x['k'] == 'DeclStmt':
+                for dd in x.get('decls', []):
+                    if dd.get('var') == v[1] and 'init' in dd:
+                        ini = fn.strip(fn.nodes[dd['init']])
+                        if ini is not None and ini['k'] in ('BinaryOperator', 'UnaryOperator', 'ParenExpr'):
+                            assume(fn, d, ini, truth)
     if v is not None:
         if truth:
             if n.get('t', '').replace('const ', '') == 'bool':
